@@ -169,7 +169,7 @@ func makeLoopDecorator(loop loopRenderer, ctx render.Context) (loopDecorator, er
 			if err != nil {
 				return nil, err
 			}
-			cols, ok := val.(int)
+			cols, ok := intOf(val)
 			if !ok {
 				return nil, ctx.Errorf("loop cols must be an integer")
 			}
@@ -229,7 +229,7 @@ func applyLoopModifiers(loop expressions.Loop, ctx render.Context, iter iterable
 		if err != nil {
 			return nil, err
 		}
-		offset, ok := val.(int)
+		offset, ok := intOf(val)
 		if !ok {
 			return nil, ctx.Errorf("loop offset must be an integer")
 		}
@@ -243,7 +243,7 @@ func applyLoopModifiers(loop expressions.Loop, ctx render.Context, iter iterable
 		if err != nil {
 			return nil, err
 		}
-		limit, ok := val.(int)
+		limit, ok := intOf(val)
 		if !ok {
 			return nil, ctx.Errorf("loop limit must be an integer")
 		}
@@ -343,4 +343,20 @@ func intMin(a, b int) int {
 		return a
 	}
 	return b
+}
+
+// intOf returns the value of an integer of any width or signedness, if it fits an int.
+func intOf(value any) (int, bool) {
+	rv := reflect.ValueOf(value)
+	switch {
+	case !rv.IsValid():
+		return 0, false
+	case rv.CanInt():
+		n := rv.Int()
+		return int(n), int64(int(n)) == n
+	case rv.CanUint():
+		u := rv.Uint()
+		return int(u), u <= math.MaxInt
+	}
+	return 0, false
 }
